@@ -67,7 +67,7 @@ func C01(r *report.Report, tier string) {
 	var jobs []crashArg
 	for _, h := range crashHistories(al, depth) {
 		for _, eager := range []bool{false, true} {
-			jobs = append(jobs, crashArg{Prop: "C01", DiskSize: 3000, Setup: crashSetup, Ops: h, Cap: cap, Eager: eager, Probe: crashProbe, Nested: tier == "thorough"})
+			jobs = append(jobs, crashArg{Prop: "C01", DiskSize: 3000, Setup: crashSetup, Ops: h, Cap: cap, Eager: eager, Probe: crashProbe, Nested: tier == "thorough" || len(h) == 1})
 		}
 	}
 	runCrashJobs(r, jobs, map[string]bool{"C01": true})
